@@ -763,7 +763,7 @@ func init() {
 		if tier == "thorough" {
 			n = 60000
 		} else if tier == "search" {
-			n = 6000
+			n = 4000
 		}
 		for i := 0; i < n && !expired(); i++ {
 			e := genC10E(rng, r)
